@@ -1,18 +1,9 @@
-# Per-property check configuration for ./check (parts, instrumentation, sharding, deadlines).
-# deadline = soft per-worker deadline in seconds: reaching it ends the run with exhaustive=false, exit 0.
+# Loads the per-property check configuration from checks/Cxx.json (one file per property, so that
+# properties can be developed independently). See docs/HARNESS_GUIDE.md for the format.
+import json, os, glob
 
-CHECKS = {
-    "C19": {
-        "level": "model_checking",
-        "explanation": "stateless model checking of the real query pipeline: all stage trees x outcome assignments x all schedules",
-        "assumptions": [
-            "interleavings are explored at sync/atomic operations of the rewritten files query/pipeline.go, query/pipeline_state_matchine.go (query/stage.baseStage has no synchronisation of its own) (sequential consistency)",
-            "async stages run through the real workerPool.execTask (panic routing) on controlled threads instead of pool worker goroutines",
-        ],
-        "parts": [
-            {"name": "sched", "harness": "c19_pipeline",
-             "rewrite": {"files": ["query/pipeline.go", "query/pipeline_state_matchine.go"]},
-             "shards": 16, "gomaxprocs": 1, "deadline": {"quick": 150, "thorough": 1500}, "min_outcomes": 4},
-        ],
-    },
-}
+_D = os.path.join(os.path.dirname(os.path.abspath(__file__)), "checks")
+CHECKS = {}
+for _f in sorted(glob.glob(os.path.join(_D, "C*.json"))):
+    _c = json.load(open(_f))
+    CHECKS[_c["property_id"]] = _c
